@@ -4,6 +4,7 @@ from __future__ import annotations
 import ast
 
 from ..astutil import norm
+from .. import regexcheck
 from ..codec import decode_entry, entry_kind
 from ..decoders import *
 from ..rt import *
@@ -48,6 +49,34 @@ def mem_derived(sym):
     return False
 
 
+def cursor_variant(I, l, p):
+    """True when the loop test is `index < bound` (or `bound > index`, `<=`, `!=` excluded) with the index a loop cursor that
+    every iteration advances by at least 1 and the bound not derived from the buffer's content; else a reason"""
+    ops = l["raw"].get("test_operands")
+    if not ops:
+        return None
+    op, a, b = ops
+    if op in ("Gt", "GtE"):
+        a, b = b, a
+    elif op not in ("Lt", "LtE"):
+        return "the comparison (%s) does not bound an increasing index (the index can step over the bound)" % op
+    cs = I.cursor_split(a)
+    if cs is None:
+        return "neither side is an index the loop advances by adding to it"
+    if mem_derived(b):
+        return "the bound is read from the device buffer (the iteration count is then the device's choice)"
+    if I.cursor_split(b) is not None:
+        return "both sides change in the loop"
+    head, end = l["raw"]["head"].get(cs[0][2]), l["raw"]["end"].get(cs[0][2])
+    es = I.cursor_split(end)
+    if es is None or es[0] != cs[0]:
+        return "the index is not advanced by adding to it"
+    lb = sym_lower_bound(es[1], p.facts)
+    if lb is None or lb < 1:
+        return "the index advances by at least %s per iteration" % lb
+    return True
+
+
 def len_vars(test):
     out = set()
     if test is None:
@@ -69,8 +98,55 @@ def decoder_targets(prog):
     return out
 
 
+RE_FUNCS = ("match", "search", "fullmatch", "sub", "subn", "split", "findall", "finditer")
+
+
+def regex_site(run, e, f, file, seen):
+    """a regular expression applied while decoding: its work on a subject it rejects must be linear"""
+    parts = e["name"].split(".")
+    pattern = flags = None
+    if len(parts) == 2 and parts[1] in RE_FUNCS:
+        pattern = e["args"][0] if e["args"] else e["kwargs"].get("pattern")
+        flags = e["kwargs"].get("flags", 0)
+    elif len(parts) == 2:
+        return                                  # re.compile / re.escape ...: nothing is matched yet
+    else:
+        fn = e.get("fn")
+        origin = None
+        while fn is not None and origin is None:
+            origin = getattr(fn, "origin_call", None)
+            fn = getattr(fn, "parent", None)
+        if origin is None or origin[0] != "re.compile" or parts[-1] not in RE_FUNCS:
+            return                              # a method of a match object (group, groups, span ...)
+        pattern = origin[1][0] if origin[1] else origin[2].get("pattern")
+        flags = origin[1][1] if len(origin[1]) > 1 else origin[2].get("flags", 0)
+    node = e.get("node")
+    c = "%s %s" % (f.qualname, norm(node) if node is not None else e["name"])
+    if c in seen:
+        return
+    seen.add(c)
+    if isinstance(pattern, SymStr) or not isinstance(pattern, (str, bytes)) or not isinstance(norm_int(flags), int):
+        raise AnalysisError("regex-pattern-not-static", "%s: the pattern is computed at run time (%r)" % (c, pattern))
+    res = regexcheck.analyse(pattern, norm_int(flags))
+    if res["verdict"] == "undecided":
+        raise AnalysisError("regex-outside-fragment", "%s: %s" % (c, res["detail"]))
+    if res["verdict"] == "linear":
+        run.ok("regex-work-linear", c, {"pattern": pattern if isinstance(pattern, str) else repr(pattern), "transitions": res["transitions"],
+                                        "notes": res["notes"]})
+    else:
+        run.violation("regex-work-linear", c,
+                      "the decoder applies the regular expression %r to text taken from the device buffer; %s (%s ambiguity): a device "
+                      "that sends a few dozen such bytes stalls the initiator" % (pattern, res["detail"], res["verdict"]),
+                      file, getattr(node, "lineno", None), f.qualname)
+
+
 def check(prog, run):
     I = prog.I
+    bad = regexcheck.self_check()
+    if bad:
+        raise AnalysisError("regex-fixture", "; ".join(bad))
+    run.extra["regex_fixtures"] = len(regexcheck.FIXTURES)
+    seen_regex = set()
     run.explanation = ("every response and sense decoder is abstractly interpreted on a device buffer of unknown content and length; "
                        "each loop with a data-dependent test is summarised and, on every path through its body, the view named in its "
                        "len() test must be re-sliced by a stride whose interval lower bound (with the path's guard refinements) is >= 1, "
@@ -84,6 +160,7 @@ def check(prog, run):
     nloops = 0
     nfunc = 0
     seen_loops = {}
+    for_ranges = set()
     for f in targets:
         nfunc += 1
         params = [p.arg for p in f.node.args.args]
@@ -124,6 +201,8 @@ def check(prog, run):
         for p in paths:
             dp = DecPath(I, p)
             for e in p.events:
+                if e["kind"] == "external-call" and e["name"].split(".")[0] == "re":
+                    regex_site(run, e, f, file, seen_regex)
                 if e["kind"] == "recursion":
                     rec_ev = True
                 if e["kind"] == "alloc-dynamic" and mem_derived(e["size"]):
@@ -136,7 +215,11 @@ def check(prog, run):
             for l in dp.loops:
                 test = l["test"]
                 if test is None:
-                    continue        # a for loop over a finite sequence
+                    # a for loop over a finite sequence; one over range(.., <dynamic>, ..) is bounded by its stop value, which
+                    # `no-iteration-count-from-content` requires not to come from the buffer's content
+                    if getattr(l["raw"].get("iterable"), "range_args", None) is not None:
+                        for_ranges.add("%s for %s" % (f.qualname, norm(l["node"].iter)))
+                    continue
                 node = l["node"]
                 lid = "%s while %s" % (f.qualname, norm(test))
                 seen_loops.setdefault(lid, 0)
@@ -145,8 +228,20 @@ def check(prog, run):
                     run.ok("loop-has-variant", lid, {"path": "leaves the loop (%s)" % l["exit"]}, nontrivial=False)
                     continue
                 lv = len_vars(test)
+                ops_ = l["raw"].get("test_operands")
+                if ops_ and any(I.cursor_split(x) is not None for x in ops_[1:]):
+                    lv = set()       # the test compares an index: the variant is bound - index, whatever the bound is called
                 if not lv:
-                    run.violation("loop-has-variant", lid, "the loop test has no len(<buffer view>) term: no recognised variant", file, node.lineno, f.qualname)
+                    # no len(...) in the test itself: an index compared with a bound that is not read from the buffer's content
+                    # (a static number, or a length computed earlier) and advanced by at least one per iteration is a variant too
+                    verdict = cursor_variant(I, l, p)
+                    if verdict is True:
+                        run.ok("loop-has-variant", lid, {"variant": "bound - index", "path": p.cond_str()[:120]})
+                    else:
+                        run.violation("loop-has-variant", lid, "the loop test %s: no recognised variant -- a device that sends a "
+                                      "suitable length loops the initiator forever"
+                                      % (("compares an index, but " + verdict) if verdict else "has no len(<buffer view>) term"),
+                                      file, node.lineno, f.qualname)
                     continue
                 progressed = False
                 why = []
@@ -185,7 +280,7 @@ def check(prog, run):
             run.violation("decoder-call-graph-acyclic", f.qualname, "the decoder recurses", file, f.node.lineno, f.qualname)
         else:
             run.ok("decoder-call-graph-acyclic", f.qualname, nontrivial=False)
-    nloops = len(seen_loops)
+    nloops = len(seen_loops) + len(for_ranges)
     # every while loop in a decoder must have been seen by the summariser or be static
     for f in targets:
         for n in I.own_nodes(f.node):
